@@ -30,6 +30,11 @@ type VerifC08 struct {
 
 // VerifC08New: one agent with one shard whose clocks start at nowUnix (CurrentTime=nowUnix, SendTime=nowUnix-2 as MakeAgent does).
 func VerifC08New(nowUnix uint32, hwRes, hwSlowRes int) *VerifC08 {
+	return VerifC08NewN(nowUnix, hwRes, hwSlowRes, 1)[0]
+}
+
+// VerifC08NewN: one agent with n shards (ShardKey 1..n), one view per shard.
+func VerifC08NewN(nowUnix uint32, hwRes, hwSlowRes int, n int) []*VerifC08 {
 	config := DefaultConfig() // a config that passes ValidateConfigSource, so that updateRemoteConfig can be applied on top of it
 	config.HardwareMetricResolution = hwRes
 	config.HardwareSlowMetricResolution = hwSlowRes
@@ -37,31 +42,35 @@ func VerifC08New(nowUnix uint32, hwRes, hwSlowRes int) *VerifC08 {
 		config:                            config,
 		logF:                              func(f string, a ...any) {},
 		mappingsCache:                     pcache.NewMappingsCache(verifC08Storage, 1024*1024, 86400),
-		shardByMetricCount:                1,
+		shardByMetricCount:                uint32(n),
 		componentTag:                      format.TagValueIDComponentAgent,
 		builtinMetricMetaUsageCPU:         *format.BuiltinMetricMetaUsageCPU,
 		builtinMetricMetaUsageMemory:      *format.BuiltinMetricMetaUsageMemory,
 		builtinMetricMetaHeartbeatVersion: *format.BuiltinMetricMetaHeartbeatVersion,
 	}
-	s := &Shard{
-		config:               config,
-		agent:                a,
-		ShardNum:             0,
-		ShardKey:             1,
-		CurrentTime:          nowUnix,
-		SendTime:             nowUnix - 2,
-		BucketsToPreprocess:  make(chan *data_model.MetricsBucket, 1), // same capacity as MakeAgent
-		metricBudgetsFromAgg: data_model.NewExpDecay(config.BudgetDecayHalfLife),
+	var views []*VerifC08
+	for i := 0; i < n; i++ {
+		s := &Shard{
+			config:               config,
+			agent:                a,
+			ShardNum:             i,
+			ShardKey:             int32(i) + 1,
+			CurrentTime:          nowUnix,
+			SendTime:             nowUnix - 2,
+			BucketsToPreprocess:  make(chan *data_model.MetricsBucket, 1), // same capacity as MakeAgent
+			metricBudgetsFromAgg: data_model.NewExpDecay(config.BudgetDecayHalfLife),
+		}
+		s.hardwareMetricResolutionResolved.Store(int32(hwRes))
+		s.hardwareSlowMetricResolutionResolved.Store(int32(hwSlowRes))
+		for j := 0; j < superQueueLen; j++ {
+			s.SuperQueue[j] = &data_model.MetricsBucket{}
+		}
+		s.cond = sync.NewCond(&s.mu)
+		a.Shards = append(a.Shards, s)
+		views = append(views, &VerifC08{A: a, S: s})
 	}
-	s.hardwareMetricResolutionResolved.Store(int32(hwRes))
-	s.hardwareSlowMetricResolutionResolved.Store(int32(hwSlowRes))
-	for j := 0; j < superQueueLen; j++ {
-		s.SuperQueue[j] = &data_model.MetricsBucket{}
-	}
-	s.cond = sync.NewCond(&s.mu)
-	a.Shards = append(a.Shards, s)
 	a.initBuiltInMetrics()
-	return &VerifC08{A: a, S: s}
+	return views
 }
 
 func (v *VerifC08) State() (cur, send uint32, stop bool, chanLen int) {
